@@ -102,6 +102,10 @@ func streamIsolation(o *Out, r *rand.Rand, n int, thorough bool) {
 		"cfg = {\"tags\": [\"a\"], \"n\": {\"k\": 0}}\ncfg.tags[0] = cfg.tags[0] + \"!\"\ncfg.n.k += 5\nprobe(cfg)",
 		"func grid() { return [[0, 0], [0, 0]] }\ng = grid()\ng[0][0] = 7\nh = grid()\nh[1][1] = 8\nprobe([g, h, grid()])",
 		"acc = []\nfor i = 0; i < 3; i++ {\nrow = [[0], [0]]\nrow[0][0] += i + 1\nacc += [row]\n}\nprobe(acc)",
+		// objects handed out by package functions belong to the run that asked for them: configuring one does not reach the next run
+		"re = import(\"regexp\").MustCompile(\"a(|b)\")\nr1 = re.FindString(\"ab\")\nre.Longest()\nr2 = re.FindString(\"ab\")\nprobe([r1, r2])",
+		"regexp = import(\"regexp\")\nre, err = regexp.Compile(\"a|ab\")\nprobe(re.FindString(\"ab\"))\nre.Longest()\nprobe(re.FindString(\"ab\"))\nprobe(regexp.MustCompile(\"a|ab\").FindString(\"ab\"))",
+		"strings = import(\"strings\")\nb = strings.NewReplacer(\"a\", \"b\")\nprobe(b.Replace(\"aa\"))\nbuf = import(\"bytes\").NewBufferString(\"x\")\nbuf.WriteString(\"y\")\nprobe(buf.String())",
 		"c = make(chan int64, 2)\ns = make(struct { C chan int64 })\nprobe(s.C == nil)\nt = make([][]int64, 2)\nt[0] = [1]\nt[0][0]++\nprobe(t)",
 	}
 	for i := 0; i < n+len(extra); i++ {
